@@ -192,10 +192,39 @@ func (w *World) forwarder(fd *ast.FuncDecl, dispatcher bool) Forwarder {
 		}
 	}
 
+	// the guard-clause spelling of a keeper wrapper:
+	//     if k.hooks == nil { return nil }
+	//     return k.hooks.X(ctx, args…)
+	// — same condition, same call, the hook's error returned as it is
+	if !dispatcher && len(body) == 2 {
+		if g, ok := body[0].(*ast.IfStmt); ok && g.Init == nil && g.Else == nil && len(g.Body.List) == 1 {
+			b, okb := unparen(g.Cond).(*ast.BinaryExpr)
+			r0, okr0 := g.Body.List[0].(*ast.ReturnStmt)
+			r1, okr1 := body[1].(*ast.ReturnStmt)
+			if okb && okr0 && okr1 && b.Op == token.EQL && isIdent(b.Y, "nil") && len(r0.Results) == 1 && isIdent(r0.Results[0], "nil") && len(r1.Results) == 1 {
+				sx, oks := unparen(b.X).(*ast.SelectorExpr)
+				c, okc := unparen(r1.Results[0]).(*ast.CallExpr)
+				if oks && okc && isIdent(sx.X, recv) && sx.Sel.Name == "hooks" {
+					if cs, ok := unparen(c.Fun).(*ast.SelectorExpr); ok {
+						if ls, ok := unparen(cs.X).(*ast.SelectorExpr); ok && isIdent(ls.X, recv) && ls.Sel.Name == "hooks" {
+							fw.Callee = cs.Sel.Name
+							fw.Args = w.argStrings(c.Args, ctxName)
+							fw.FallthroughNil, fw.Recognised, fw.LoopsAll, fw.ErrChecked = true, true, true, true
+							return fw
+						}
+					}
+				}
+			}
+		}
+	}
+
 	// onListener: is e the listener expression?
-	var loopVar string
+	var loopVar, loopVal string
 	onListener := func(e ast.Expr) bool {
 		if dispatcher {
+			if loopVal != "" && isIdent(unparen(e), loopVal) {
+				return true // `for _, l := range h { l.X(…) }`
+			}
 			ix, ok := unparen(e).(*ast.IndexExpr)
 			return ok && isIdent(ix.X, recv) && loopVar != "" && isIdent(ix.Index, loopVar)
 		}
@@ -212,6 +241,9 @@ func (w *World) forwarder(fd *ast.FuncDecl, dispatcher bool) Forwarder {
 			if dispatcher {
 				loopVar = identName(g.Key)
 				guardOK = g.Tok == token.DEFINE && loopVar != "" && loopVar != "_" && g.Value == nil && isIdent(g.X, recv)
+				if v := identName(g.Value); g.Value != nil && v != "" && v != "_" && g.Tok == token.DEFINE && isIdent(g.X, recv) {
+					loopVal, guardOK = v, true // ranging over the listeners by value
+				}
 				inner = g.Body.List
 			}
 		case *ast.IfStmt:
